@@ -892,6 +892,16 @@ fn mirror_row(
     // fast path: the whole row under one catch
     let res = catch(|| {
         let mut found: Vec<(usize, String, String)> = Vec::new();
+        // the two score buffers are REUSED for every matrix of the row; so that a single case replayed alone also
+        // scores into a used buffer, the forward buffer first receives the forward scores of the first matrix (only
+        // that one: used symmetrically, left-over contents would cancel out in the strand comparison)
+        // ... of the sequence without its last symbol: same number of rows (mostly), another number of positions
+        if let Some(p0) = prepared.first() {
+            match stripe_pair(pl, &seq[..seq.len().saturating_sub(1)], wrap) {
+                Ok(short) => score_with(pl, &p0.m, &short.s, &mut a),
+                Err(_) => score_with(pl, &p0.m, &st.s, &mut a),
+            }
+        }
         for (k, p) in prepared.iter().enumerate() {
             score_with(pl, &p.m, &st.s, &mut a);
             score_with(pl, &p.rc, &st.r, &mut b);
@@ -1198,7 +1208,17 @@ fn nonfinite_row_layout(pl: Pl, seq: &[u8], prepared: &[Prepared], wrap: usize, 
                             let (u, v) = (x[i], y[valid - 1 - i]);
                             let want = window_class(&p.cells, seq, i);
                             let wantr = window_class(&pm::cells_score(&p.rc), &rseq, valid - 1 - i);
-                            debug_assert!(same_class(want, wantr));
+                            if !same_class(want, wantr) {
+                                // the cells of the library's reverse-complement matrix do not mirror the matrix
+                                f = Some((
+                                    format!("{}: cells of the reverse-complement matrix", what),
+                                    format!(
+                                        "the IEEE sum of the cells of window {} of s under m is {:?}, of the mirrored window {} of rc(s) under the library's rc(m) {:?} (L={}, M={})",
+                                        i, want, valid - 1 - i, wantr, l, m
+                                    ),
+                                ));
+                                break;
+                            }
                             if !same_class(u, v) || !same_class(u, want) {
                                 f = Some((
                                     format!("{}: mirrored non-finite score", what),
